@@ -162,4 +162,238 @@ theorem sheared_rejected (nrm w : V3) (hn : nrm.dot nrm = 1) (hw : w.dot w = 1) 
     nlinarith
   simp only [hperp, Bool.and_false, Bool.false_eq_true, if_false]
 
+/-! ## input-order independence -/
+
+/-- **permutation equivariance**: for two orders of the same rows, `get_volume_positions` (sorting on, any
+options, any rows — regular or not) fails alike, refuses both, or accepts both with the same spacing and ONE
+function from rows to volume indices: permuting the input permutes the output, nothing else changes. -/
+theorem permutation_equivariance (nrm : V3) {ps ps' : List V3} (h : ps.Perm ps') (op : Opts) (hsort : op.sort = true)
+    (hint : Option Rat) (rtol atol : Rat) :
+    (∃ e, volumePositionsOf nrm ps op hint rtol atol = .error e ∧ volumePositionsOf nrm ps' op hint rtol atol = .error e) ∨
+    (volumePositionsOf nrm ps op hint rtol atol = .ok none ∧ volumePositionsOf nrm ps' op hint rtol atol = .ok none) ∨
+    (∃ sp, ∃ f : V3 → Int, volumePositionsOf nrm ps op hint rtol atol = .ok (some (sp, ps.map f)) ∧
+      volumePositionsOf nrm ps' op hint rtol atol = .ok (some (sp, ps'.map f))) :=
+  volumePositionsOf_perm nrm h op hsort hint rtol atol
+
+/-- `np.unique(axis=0)` depends only on the set of rows (the reason for the theorem above) -/
+theorem unique_rows_canonical {ps ps' : List V3} (h : ∀ q, q ∈ ps ↔ q ∈ ps') : uniqueRows ps = uniqueRows ps' :=
+  uniqueRows_congr h
+
+/-- duplicated positions are detected exactly: the unique rows are fewer iff some row repeats -/
+theorem duplicates_detected (ps : List V3) : (uniqueRows ps).length < ps.length ↔ ¬ ps.Nodup :=
+  uniqueRows_length_lt_iff ps
+
+/-- undeclared duplicates are refused -/
+theorem undeclared_duplicates_refused (nrm : V3) (ps : List V3) (hd : ¬ ps.Nodup) (op : Opts)
+    (hdup : op.allowDuplicate = false) (hint : Option Rat) (rtol atol : Rat) :
+    volumePositionsOf nrm ps op hint rtol atol = .ok none := by
+  have := (uniqueRows_length_lt_iff ps).mpr hd
+  simp [volumePositionsOf, hdup, this, pure, Except.pure]
+
+/-! ## sorting datasets and assembling a series -/
+
+/-- **`sort_datasets` yields the plane order**: datasets of a stack along a line (distinct distances `g j`,
+`g` strictly increasing along the positive normal of the convention), given in ANY order, come out in the order
+of the plane numbers `0, 1, …, N−1` — increasing along the positive normal, and identical to the order of the
+volume indices of `regular_stack_recognised` (dataset of index `k` at place `k`). -/
+theorem sort_datasets_spec {α} (f : Nat → V3) (g : Nat → Rat) (pay : Nat → α) (ori : List Rat) (oo : Ori)
+    (hori : Ori.ofList ori = some oo) {cv : Char × Char} (hcv : cv ∈ validConventions) (rh : Bool)
+    (hfg : ∀ j, (normalSpec oo cv rh).dot (f j) = g j) (hg : StrictMono g) {js : List Nat} {N : Nat} (hN : 1 ≤ N)
+    (hp : js.Perm (List.range N)) :
+    sortDatasets (js.map fun j => (rowOf (f j), pay j)) ori [cv.1, cv.2] rh = .ok ((List.range N).map pay) ∧
+    planeSortIndex (js.map fun j => rowOf (f j)) ori [cv.1, cv.2] rh = .ok ((List.range N).map fun r => js.idxOf r) := by
+  have hne : (js.map fun j => rowOf (f j)).isEmpty = false := by
+    have : js.length = N := by rw [hp.length_eq, List.length_range]
+    cases js with
+    | nil => simp at this; omega
+    | cons j js => rfl
+  have hrows : (js.map fun j => rowOf (f j)) = (js.map f).map rowOf := by rw [List.map_map]; rfl
+  have hd : (js.map f).map (normalSpec oo cv rh).dot = js.map g := by
+    rw [List.map_map]; apply List.map_congr_left; intro j _; exact hfg j
+  have hidx : planeSortIndex (js.map fun j => rowOf (f j)) ori [cv.1, cv.2] rh
+      = .ok ((List.range N).map fun r => js.idxOf r) := by
+    unfold planeSortIndex
+    rw [hrows] at hne ⊢
+    simp only [rowsToV3_rowOf, hne, hori, normConvention_valid hcv, normalVector_eval oo hcv, hd, argsort_mono hg hp,
+      bind, Except.bind, pure, Except.pure, Bool.false_eq_true, if_false]
+  refine ⟨?_, hidx⟩
+  unfold sortDatasets
+  have hitems : ((js.map fun j => (rowOf (f j), pay j)).map (·.1)) = js.map fun j => rowOf (f j) := by
+    rw [List.map_map]; rfl
+  simp only [hitems, hidx, bind, Except.bind, pure, Except.pure]
+  have hsub : ∀ r < N, r ∈ js := fun r hr => hp.mem_iff.mpr (List.mem_range.mpr hr)
+  have := filterMap_getElem_idxOf pay js N hsub
+  have e : (fun (i : Nat) => ((js.map fun j => (rowOf (f j), pay j))[i]?).map (·.2)) = fun i => (js.map pay)[i]? := by
+    funext i
+    simp only [List.getElem?_map, Option.map_map]
+    rfl
+  rw [e, this]
+
+/-- **a series assembles to the same volume whatever the order of the datasets**: for a regular stack (default
+volume convention, right-handed, `N ≥ 2` datasets, no duplicates) given in any order `js`, the assembled volume has
+spacing `s`, the position of plane 0, and the payloads (pixel frames) in plane order `0 … N−1`. -/
+theorem series_assembly_order_independent {α} (pay : Nat → α) (ori : List Rat) (oo : Ori)
+    (hori : Ori.ofList ori = some oo) (ho : OrthoPair oo.row oo.col) (o : V3) {s : Rat} (hs : 0 < s)
+    {js : List Nat} {N : Nat} (hN : 2 ≤ N) (hp : js.Perm (List.range N)) :
+    assembleSeries (js.map fun j => (rowOf (planePos o (normalSpec oo ('D', 'R') true) s j), pay j)) ori none none
+      = .ok (s, rowOf (planePos o (normalSpec oo ('D', 'R') true) s 0), (List.range N).map pay) := by
+  set nrm := normalSpec oo ('D', 'R') true with hnrm
+  have hlen : js.length = N := by rw [hp.length_eq, List.length_range]
+  have hmem : ∀ j, j ∈ js ↔ j < N := fun j => by rw [hp.mem_iff, List.mem_range]
+  have hnd : js.Nodup := hp.nodup_iff.mpr List.nodup_range
+  have hcv : ('D', 'R') ∈ validConventions := by decide
+  have hrows : ((js.map fun j => (rowOf (planePos o nrm s j), pay j)).map (·.1)) = (js.map (planePos o nrm s)).map rowOf := by
+    rw [List.map_map, List.map_map]; rfl
+  have hreg := regular_stack_recognised ori oo hori ho hcv {} rfl rfl rfl default_options (by norm_num) (le_refl 0)
+    o hs js hN hmem (Or.inr hnd)
+  simp only [] at hreg
+  rw [← hnrm] at hreg
+  have hl0 : ¬ (js.map fun j => (rowOf (planePos o nrm s j), pay j)).length = 0 := by rw [List.length_map, hlen]; omega
+  have hl1 : ¬ (js.map fun j => (rowOf (planePos o nrm s j), pay j)).length = 1 := by rw [List.length_map, hlen]; omega
+  unfold assembleSeries
+  simp only [hl0, hl1, if_false, hrows, hreg, seriesOrder_regular (fun j => (rowOf (planePos o nrm s j), pay j)) hp,
+    bind, Except.bind, pure, Except.pure]
+  obtain ⟨M, rfl⟩ : ∃ M, N = M + 1 := ⟨N - 1, by omega⟩
+  simp [List.range_succ_eq_map, List.map_map]
+
+/-! ## `sort=False`: the order given is the order examined (defect C11-unsorted-uses-given-order, repaired) -/
+
+/-- a regular stack passed along the positive normal is accepted without sorting, with or without
+`enforce_handedness`, and its indices are the given order `0, 1, …, M` -/
+theorem unsorted_along_normal_recognised (o nrm : V3) (hn : nrm.dot nrm = 1) {s : Rat} (hs : 0 < s) {M : Nat} (hM : 1 ≤ M)
+    (op : Opts) (hsort : op.sort = false) (hmiss : op.allowMissing = false) {rtol atol : Rat} (hr : 0 ≤ rtol) (ha : 0 ≤ atol) :
+    volumePositionsOf nrm ((List.range (M + 1)).map (planePos o nrm s)) op none rtol atol
+      = .ok (some (s, (List.range (M + 1)).map Int.ofNat)) := by
+  rw [volumePositionsOf_unsorted nrm _ _ (dot_planePos o nrm s hn) (planePos_injective o nrm hn hs) hM op hsort hmiss]
+  have hsp := mean_spacing (nrm.dot o) s M hM
+  have hden : (((M + 1 : Nat) : Rat)) - 1 = (M : Rat) := by push_cast; ring
+  rw [hden] at hsp
+  have hreg : ((diffs ((List.range (M + 1)).map (gdist (nrm.dot o) s))).all fun x => isClose x s rtol atol) = true := by
+    rw [List.all_eq_true]
+    intro x hx
+    rw [List.range_eq_range'] at hx
+    rw [diffs_affine _ _ _ _ x hx]
+    exact isClose_self s rtol atol hr ha
+  have hMs : ((M : Rat) * s) ≠ 0 := by
+    have : (1 : Rat) ≤ (M : Rat) := by exact_mod_cast hM
+    have : 0 < (M : Rat) * s := by positivity
+    exact ne_of_gt this
+  simp only [hsp, hreg, planePos_span, isPerpendicular_smul nrm hn hMs, rabs_of_pos hs, not_lt.mpr (le_of_lt hs),
+    decide_false, Bool.and_false, Bool.true_and, Bool.false_eq_true, if_false, if_true]
+
+/-- the same stack passed AGAINST the positive normal (rows `f j = plane M − j`): refused under
+`enforce_handedness`, otherwise accepted with the given order as indices -/
+theorem unsorted_against_normal (o nrm : V3) (hn : nrm.dot nrm = 1) {s : Rat} (hs : 0 < s) {M : Nat} (hM : 1 ≤ M)
+    (op : Opts) (hsort : op.sort = false) (hmiss : op.allowMissing = false) {rtol atol : Rat} (hr : 0 ≤ rtol) (ha : 0 ≤ atol) :
+    volumePositionsOf nrm ((List.range (M + 1)).map fun j => planePos o nrm s (M - j)) op none rtol atol
+      = .ok (if op.enforce then none else some (s, (List.range (M + 1)).map Int.ofNat)) := by
+  have hinj : Function.Injective fun j : Nat => o.add (V3.smul (((M : Rat) - (j : Rat)) * s) nrm) := by
+    intro i j h
+    have := congrArg nrm.dot h
+    simp only [] at this
+    have e : ∀ k : Nat, nrm.dot (o.add (V3.smul (((M : Rat) - (k : Rat)) * s) nrm)) = nrm.dot o + ((M : Rat) - (k : Rat)) * s := by
+      intro k
+      obtain ⟨a, b, c⟩ := o
+      obtain ⟨x, y, z⟩ := nrm
+      simp only [V3.dot] at hn
+      simp only [V3.add, V3.smul, V3.dot]
+      linear_combination (((M : Rat) - (k : Rat)) * s) * hn
+    rw [e, e] at this
+    have h2 : ((i : Rat) - (j : Rat)) * s = 0 := by linarith
+    rcases mul_eq_zero.mp h2 with h3 | h3
+    · exact_mod_cast (sub_eq_zero.mp h3)
+    · exact absurd h3 (ne_of_gt hs)
+  -- on the range the two descriptions of the rows coincide
+  have hrows : ((List.range (M + 1)).map fun j => planePos o nrm s (M - j))
+      = (List.range (M + 1)).map fun j : Nat => o.add (V3.smul (((M : Rat) - (j : Rat)) * s) nrm) := by
+    apply List.map_congr_left
+    intro j hj
+    have hj' : j ≤ M := by have := List.mem_range.mp hj; omega
+    simp only [planePos]
+    congr 2
+    push_cast [Nat.cast_sub hj']
+    ring
+  have hfg : ∀ j : Nat, nrm.dot (o.add (V3.smul (((M : Rat) - (j : Rat)) * s) nrm)) = nrm.dot o + ((M : Rat) - (j : Rat)) * s := by
+    intro k
+    obtain ⟨a, b, c⟩ := o
+    obtain ⟨x, y, z⟩ := nrm
+    simp only [V3.dot] at hn
+    simp only [V3.add, V3.smul, V3.dot]
+    linear_combination (((M : Rat) - (k : Rat)) * s) * hn
+  rw [hrows, volumePositionsOf_unsorted nrm _ _ hfg hinj hM op hsort hmiss]
+  have hMne : (M : Rat) ≠ 0 := by
+    have : (1 : Rat) ≤ (M : Rat) := by exact_mod_cast hM
+    linarith
+  have hsp : (nrm.dot o + ((M : Rat) - ((M : Nat) : Rat)) * s - (nrm.dot o + ((M : Rat) - ((0 : Nat) : Rat)) * s)) / (M : Rat) = -s := by
+    rw [div_eq_iff hMne]; push_cast; ring
+  have hreg : ((diffs ((List.range (M + 1)).map fun j : Nat => nrm.dot o + ((M : Rat) - (j : Rat)) * s)).all
+      fun x => isClose x (-s) rtol atol) = true := by
+    rw [List.all_eq_true]
+    intro x hx
+    have : x = -s := by
+      rw [List.range_eq_range'] at hx
+      exact diffs_const (fun j : Nat => nrm.dot o + ((M : Rat) - (j : Rat)) * s) (-s) (fun j => by push_cast; ring) _ _ x hx
+    rw [this]
+    exact isClose_self (-s) rtol atol hr ha
+  have hspan : (o.add (V3.smul (((M : Rat) - ((M : Nat) : Rat)) * s) nrm)).sub (o.add (V3.smul (((M : Rat) - ((0 : Nat) : Rat)) * s) nrm))
+      = V3.smul (-((M : Rat) * s)) nrm := by
+    obtain ⟨a, b, c⟩ := o
+    obtain ⟨x, y, z⟩ := nrm
+    simp only [V3.add, V3.smul, V3.sub, V3.mk.injEq]
+    refine ⟨?_, ?_, ?_⟩ <;> push_cast <;> ring
+  have hMs : (-((M : Rat) * s)) ≠ 0 := by
+    have : (1 : Rat) ≤ (M : Rat) := by exact_mod_cast hM
+    have : 0 < (M : Rat) * s := by positivity
+    linarith
+  have hneg : (-s) < 0 := by linarith
+  simp only [hsp, hreg, hspan, isPerpendicular_smul nrm hn hMs, rabs_neg_of_pos hs, hneg, decide_true, Bool.and_true,
+    Bool.true_and]
+  cases op.enforce <;> simp
+
+/-- without sorting, rows whose consecutive spacing IN THE GIVEN ORDER is not within tolerance of the mean
+spacing are refused (e.g. a shuffled regular stack) -/
+theorem unsorted_irregular_rejected (nrm : V3) (f : Nat → V3) (g : Nat → Rat) (hfg : ∀ j, nrm.dot (f j) = g j)
+    (hinj : Function.Injective f) {M : Nat} (hM : 1 ≤ M) (op : Opts) (hsort : op.sort = false)
+    (hmiss : op.allowMissing = false) (rtol atol : Rat) (k : Nat) (hk : k < M)
+    (hbad : isClose (g (k + 1) - g k) ((g M - g 0) / (M : Rat)) rtol atol = false) :
+    volumePositionsOf nrm ((List.range (M + 1)).map f) op none rtol atol = .ok none := by
+  rw [volumePositionsOf_unsorted nrm f g hfg hinj hM op hsort hmiss]
+  have hall : ((diffs ((List.range (M + 1)).map g)).all fun x => isClose x ((g M - g 0) / (M : Rat)) rtol atol) = false := by
+    rw [Bool.eq_false_iff, ne_eq, List.all_eq_true]
+    intro hall
+    have := hall _ (diffs_mem g (M + 1) k (by omega))
+    rw [hbad] at this
+    cases this
+  simp only [hall, Bool.false_and, Bool.false_eq_true, if_false]
+
+/-- `sort=False` cannot be combined with duplicates or gaps -/
+theorem unsorted_flags_refused (op : Opts) (hsort : op.sort = false) (h : op.allowDuplicate = true ∨ op.allowMissing = true) :
+    normaliseOpts op = .error .value := by
+  unfold normaliseOpts
+  rcases h with h | h
+  · simp [hsort, h]
+  · cases hd : op.allowDuplicate <;> simp [hsort, h]
+
+/-! ## non-vacuity -/
+
+/-- the unit normal of the axial orientation in the volume convention is −z -/
+example : normalSpec ⟨⟨1, 0, 0⟩, ⟨0, 1, 0⟩⟩ ('D', 'R') true = ⟨0, 0, -1⟩ := by decide +kernel
+example : OrthoPair (⟨3 / 5, 4 / 5, 0⟩ : V3) ⟨-4 / 5, 3 / 5, 0⟩ := ⟨by decide +kernel, by decide +kernel, by decide +kernel⟩
+example : [2, 0, 3, 1].Perm (List.range 4) := by decide
+example : ∀ j, j ∈ [2, 0, 1, 2, 0] ↔ j < 3 := by intro j; simp; omega
+/-- a shuffled regular oblique stack with a duplicate, evaluated: spacing 5/4, indices = plane numbers -/
+example : getVolumePositions
+    (([2, 0, 1, 2].map (planePos ⟨1, 2, 3⟩ (normalSpec ⟨⟨3 / 5, 4 / 5, 0⟩, ⟨-4 / 5, 3 / 5, 0⟩⟩ ('D', 'R') true) (5 / 4))).map rowOf)
+    [3 / 5, 4 / 5, 0, -4 / 5, 3 / 5, 0] { allowDuplicate := true } = .ok (some (5 / 4, [2, 0, 1, 2])) := by decide +kernel
+/-- an irregular stack (last gap doubled) is refused -/
+example : getVolumePositions [[0, 0, 0], [0, 0, -1], [0, 0, -3]] [1, 0, 0, 0, 1, 0] {} = .ok none := by decide +kernel
+/-- a sheared stack (stacking direction 0.2 off) is refused although the spacing is regular -/
+example : getVolumePositions [[0, 0, 0], [1 / 5, 0, -1], [2 / 5, 0, -2]] [1, 0, 0, 0, 1, 0] {} = .ok none := by decide +kernel
+example : (1 : Rat) * 1 ≤ (1 - perpTol) * (1 - perpTol) * (1 * 1 + (1 / 5) * (1 / 5)) := by decide +kernel
+/-- the witnesses of the repaired `sort=False` defect -/
+example : getVolumePositions [[0, 0, 2], [0, 0, 1], [0, 0, 0]] [1, 0, 0, 0, 1, 0] { sort := false, enforce := true }
+    = .ok (some (1, [0, 1, 2])) := by decide +kernel
+example : getVolumePositions [[0, 0, 1], [0, 0, 0], [0, 0, 2]] [1, 0, 0, 0, 1, 0] { sort := false } = .ok none := by
+  decide +kernel
+
 end HdVerif.C11
